@@ -473,15 +473,15 @@ where
         feature_class: u64,
         only_baked: bool,
     ) -> (TrackDistanceOk<OA>, TrackDistanceErr<OA>) {
-        let tracks_vec = self.fetch_tracks(tracks);
+        // the queried tracks stay in the store (copies are used as the distance subjects), so they
+        // are compared with one another whatever the workers' schedule is; a track is never
+        // compared with itself because the workers skip the equal id
+        let tracks_vec = tracks
+            .iter()
+            .filter_map(|track_id| self.get_store(*track_id as usize).get(track_id).cloned())
+            .collect::<Vec<_>>();
 
-        let res = self.foreign_track_distances(tracks_vec.clone(), feature_class, only_baked);
-
-        for t in tracks_vec {
-            self.add_track(t).unwrap();
-        }
-
-        res
+        self.foreign_track_distances(tracks_vec, feature_class, only_baked)
     }
 
     /// returns the store shard for id
